@@ -15,8 +15,8 @@ import (
 	"github.com/DistCompiler/pgo/distsys"
 	"github.com/DistCompiler/pgo/distsys/tla"
 	gen "github.com/DistCompiler/pgo/systems/gcounter"
-	"verif/mc/sys/envproc"
 	ss "verif/mc/specstep"
+	"verif/mc/sys/envproc"
 )
 
 type Config struct {
